@@ -30,6 +30,7 @@ package control
 import (
 	"encoding/hex"
 	"fmt"
+	"net"
 	"net/netip"
 	"os"
 	"path/filepath"
@@ -45,6 +46,7 @@ import (
 	"github.com/daeuniverse/dae/component/routing"
 	"github.com/daeuniverse/dae/config"
 	"github.com/daeuniverse/dae/pkg/config_parser"
+	dnsmessage "github.com/miekg/dns"
 	"github.com/sirupsen/logrus"
 )
 
@@ -101,6 +103,11 @@ type c02Kern struct {
 	maxSets   int
 	maxTries  int
 	lastSlots map[uint32]struct{}
+	// DNS-aware stream (c02dom): the planes carry a real DnsController wired by dnsControllerOption() to the
+	// real domain-routing tracker; hosts = what the harness has answered so far (name -> addresses)
+	withDns bool
+	hosts   map[string][]netip.Addr
+	matcher *RoutingMatcher
 }
 
 func c02NewKern(name string, stats *VStats, log *logrus.Logger) *c02Kern {
@@ -292,13 +299,23 @@ func (k *c02Kern) reload(b *RoutingMatcherBuilder, cur **c02Gen) (*RoutingMatche
 	k.st.Emit(fmt.Sprintf("reserve %d %d", len(tries), start), "ok")
 	plane := &ControlPlane{log: k.log, routingKernspaceSnapshot: snap, sharedBpfReload: true}
 	plane.connStateJanitorStarted.Store(true)
+	if k.withDns {
+		plane.routingMatcher = matcher
+		if k.plane != nil {
+			// the reload handler hands the old generation's DNS cache to the new one
+			plane.pendingDnsReloadCache = k.plane.CloneDnsCache()
+		}
+	}
 	var err error
 	mode := "commit+inherit"
 	res := VRecover(func() string {
-		if k.plane == nil || k.gen%2 == 0 {
-			core := &controlPlaneCore{log: k.log}
+		if k.plane == nil || k.gen%2 == 0 || k.withDns {
+			core := &controlPlaneCore{log: k.log, domainRouting: newDomainRoutingTracker()}
 			core.bpf.Store(k.bpf)
 			plane.core = core
+			if k.withDns {
+				plane.dnsController = c02NewDnsController(plane)
+			}
 			var idx []uint32
 			if idx, err = snap.BuildKernspace(k.log, core.bpf.Load()); err != nil {
 				return "err"
@@ -307,6 +324,7 @@ func (k *c02Kern) reload(b *RoutingMatcherBuilder, cur **c02Gen) (*RoutingMatche
 			if err = clearReloadDomainRoutingMap(core.bpf.Load()); err != nil {
 				return "err"
 			}
+			plane.replayDnsReloadCache() // CommitPreparedDatapath: clear, then replay the handed-over DNS cache
 			if k.plane != nil {
 				plane.InheritLpmIndices(k.plane.EjectLpmIndices())
 			}
@@ -360,8 +378,13 @@ func (k *c02Kern) reload(b *RoutingMatcherBuilder, cur **c02Gen) (*RoutingMatche
 	}
 	k.lastSlots = newSlots
 	k.sync()
-	if len(k.shDom) != 0 {
-		k.goViol = append(k.goViol, fmt.Sprintf("domain_routing_map still holds %d addresses of the previous generation after the reload (mode %s)", len(k.shDom), mode))
+	k.matcher = matcher
+	if !k.withDns {
+		if len(k.shDom) != 0 {
+			k.goViol = append(k.goViol, fmt.Sprintf("domain_routing_map still holds %d addresses of the previous generation after the reload (mode %s)", len(k.shDom), mode))
+		}
+	} else {
+		k.checkDomainTable("after reload (" + mode + ")")
 	}
 	k.st.Emit("instcheck", "ok")
 	k.plane = plane
@@ -377,6 +400,116 @@ func (k *c02Kern) reload(b *RoutingMatcherBuilder, cur **c02Gen) (*RoutingMatche
 	return matcher, "ok"
 }
 
+// a DnsController without its background goroutines, wired by the production dnsControllerOption()
+// (CacheAccessCallback -> core.BatchUpdateDomainRouting -> domainRoutingTracker.syncOwner -> BpfMapBatchUpdate
+// on the real domain_routing_map; NewCache -> routingMatcher.domainMatcher.MatchDomainBitmap).
+func c02NewDnsController(plane *ControlPlane) *DnsController {
+	ctrl := &DnsController{dnsControllerStore: newDnsControllerStore(), log: plane.log, dnsForwarderIdleTTL: dnsForwarderIdleTTL}
+	if err := ctrl.TryUpdateRuntime(plane.dnsControllerOption(), nil); err != nil {
+		panic(err)
+	}
+	ctrl.bpfUpdateOnce.Do(func() {
+		ctrl.bpfUpdateCh = make(chan *bpfUpdateTask, 1024)
+		ctrl.bpfUpdateStop = make(chan struct{})
+	})
+	return ctrl
+}
+
+// every address in the real domain_routing_map must carry the OR of the CURRENT generation's
+// MatchDomainBitmap of the names answered with it (a bitmap of an earlier generation points at other
+// match sets). Addresses that should be there but are not are counted, not alarmed on (C10's subject).
+func (k *c02Kern) checkDomainTable(when string) {
+	want := map[[16]byte][32]uint32{}
+	for name, addrs := range k.hosts {
+		bm := k.matcher.domainMatcher.MatchDomainBitmap(name)
+		for _, a := range addrs {
+			key := a.As16()
+			cur := want[key]
+			for i := range cur {
+				if i < len(bm) {
+					cur[i] |= bm[i]
+				}
+			}
+			want[key] = cur
+		}
+	}
+	for key, w := range want {
+		img := hex.EncodeToString(unsafe.Slice((*byte)(unsafe.Pointer(&w[0])), unsafe.Sizeof(w)))
+		got, ok := k.shDom[key]
+		if !ok {
+			if w != [32]uint32{} {
+				k.stats.Inc("dom.cached_name_missing_in_kernel_map")
+				k.stats.Sample(fmt.Sprintf("domain_routing_map has no entry for %s %s", netip.AddrFrom16(key).Unmap(), when))
+			}
+			continue
+		}
+		k.stats.Inc("dom.entries_verified")
+		if got != img {
+			k.goViol = append(k.goViol, fmt.Sprintf("domain_routing_map[%s] %s holds a bitmap that is not the current generation's MatchDomainBitmap of the names resolved to it: kernel %s want %s",
+				netip.AddrFrom16(key).Unmap(), when, strings.TrimRight(got, "0"), strings.TrimRight(img, "0")))
+		}
+	}
+	for key := range k.shDom {
+		if _, ok := want[key]; !ok {
+			k.goViol = append(k.goViol, fmt.Sprintf("domain_routing_map[%s] %s: address of no cached name", netip.AddrFrom16(key).Unmap(), when))
+		}
+	}
+}
+
+// a DNS answer reaches the real controller: cache entry, tracker, kernel map
+func (k *c02Kern) answer(name string, addrs ...netip.Addr) {
+	var a4, a6 []dnsmessage.RR
+	for _, a := range addrs {
+		if a.Is4() {
+			b := a.As4()
+			a4 = append(a4, &dnsmessage.A{Hdr: dnsmessage.RR_Header{Name: name + ".", Rrtype: dnsmessage.TypeA, Class: dnsmessage.ClassINET, Ttl: 300}, A: net.IP(b[:])})
+		} else {
+			b := a.As16()
+			a6 = append(a6, &dnsmessage.AAAA{Hdr: dnsmessage.RR_Header{Name: name + ".", Rrtype: dnsmessage.TypeAAAA, Class: dnsmessage.ClassINET, Ttl: 300}, AAAA: net.IP(b[:])})
+		}
+	}
+	ctrl := k.plane.dnsController
+	if len(a4) > 0 {
+		if err := ctrl.UpdateDnsCacheTtl(name+".", dnsmessage.TypeA, a4, nil, nil, 300); err != nil {
+			k.goViol = append(k.goViol, "UpdateDnsCacheTtl: "+err.Error())
+		}
+	}
+	if len(a6) > 0 {
+		if err := ctrl.UpdateDnsCacheTtl(name+".", dnsmessage.TypeAAAA, a6, nil, nil, 300); err != nil {
+			k.goViol = append(k.goViol, "UpdateDnsCacheTtl: "+err.Error())
+		}
+	}
+	k.hosts[name] = append(k.hosts[name], addrs...)
+	k.sync()
+	k.checkDomainTable("after the answer for " + name)
+}
+
+// packets of a flow to every cached name's addresses, the name sniffed by userspace; the kernel uses
+// whatever domain_routing_map holds (NOT written by the harness in this stream)
+func (k *c02Kern) domPackets() {
+	names := make([]string, 0, len(k.hosts))
+	for n := range k.hosts {
+		names = append(names, n)
+	}
+	sort.Strings(names)
+	for _, name := range names {
+		for _, a := range k.hosts[name] {
+			if _, ok := k.shDom[a.As16()]; !ok {
+				nz := false
+				for _, w := range k.matcher.domainMatcher.MatchDomainBitmap(name) {
+					nz = nz || w != 0
+				}
+				if nz {
+					continue // counted by checkDomainTable; without an entry H2 does not hold
+				}
+			}
+			for _, v := range []c02Variant{{l4: consts.L4ProtoType_TCP, dport: 443, hasMac: true}, {l4: consts.L4ProtoType_UDP, wan: true, dport: 53, hasPn: true}} {
+				k.rawPacket(c01Pkt{src: netip.MustParseAddr("10.0.0.9"), dst: a, sport: 50000, dport: v.dport, l4: v.l4, domain: name}, v)
+			}
+		}
+	}
+}
+
 type c02Variant struct {
 	l4     consts.L4ProtoType
 	wan    bool
@@ -388,6 +521,15 @@ type c02Variant struct {
 // one packet: installs / removes the destination's domain bitmap like the DNS controller would,
 // then asks the real Match.
 func (k *c02Kern) packet(m *RoutingMatcher, pk c01Pkt, v c02Variant, ipver consts.IpVersionType) {
+	k.packetX(m, pk, v, ipver, true)
+}
+
+// rawPacket: the kernel sees whatever the control plane put into domain_routing_map
+func (k *c02Kern) rawPacket(pk c01Pkt, v c02Variant) {
+	k.packetX(k.matcher, pk, v, c02IpVer(pk.dst), false)
+}
+
+func (k *c02Kern) packetX(m *RoutingMatcher, pk c01Pkt, v c02Variant, ipver consts.IpVersionType, writeDom bool) {
 	src16, dst16 := pk.src.As16(), pk.dst.As16()
 	var mac16 [16]byte
 	if v.hasMac {
@@ -399,7 +541,15 @@ func (k *c02Kern) packet(m *RoutingMatcher, pk c01Pkt, v c02Variant, ipver const
 	}
 	// domain bitmap
 	ubm := "-"
-	if pk.domain != "" {
+	if !writeDom {
+		if pk.domain != "" {
+			bm := m.domainMatcher.MatchDomainBitmap(pk.domain)
+			var dr bpfDomainRouting
+			copy(dr.Bitmap[:], bm)
+			ubm = hex.EncodeToString(unsafe.Slice((*byte)(unsafe.Pointer(&dr.Bitmap[0])), unsafe.Sizeof(dr.Bitmap)))
+		}
+		k.stats.Inc("pkt.domain_table_written_by_control_plane")
+	} else if pk.domain != "" {
 		bm := m.domainMatcher.MatchDomainBitmap(pk.domain)
 		var dr bpfDomainRouting
 		if len(bm) != len(dr.Bitmap) {
@@ -813,6 +963,80 @@ func TestVerifC02(t *testing.T) {
 	allViol = append(allViol, g.goViol...)
 	g.close()
 	_ = os.WriteFile(filepath.Join(VOutDir(), "c02big.note"), []byte(strings.Join(bigNote, "\n")+"\n"), 0o644)
+
+	// ---------------------------------------------------------------- domain table across reloads (stale-bitmap stream)
+	// DNS answers go through the real DnsController -> tracker -> domain_routing_map; reloads re-number the
+	// domain match sets (rules inserted in front, a domain rule removed, order changed); the DNS cache is handed
+	// over and replayed (replayDnsReloadCache -> RestoreReloadCache -> tracker) as CommitPreparedDatapath does.
+	d := c02NewKern("c02dom", stats, log)
+	d.withDns, d.hosts = true, map[string][]netip.Addr{}
+	d.st.Emit(fmt.Sprintf("ringset %d", globalNextLpmIndex.Load()), "ok")
+	var dcur *c02Gen
+	domRules := []string{
+		"  domain(full: a.example.test) -> " + c01Outs[2] + "\n",
+		"  domain(suffix: b.example.test) && dport(443) -> " + c01Outs[3] + "\n",
+		"  domain(keyword: ccc) -> must_rules\n",
+		"  domain(suffix: example.test, full: other.test) -> " + c01Outs[4] + "(mark: 0x77)\n",
+	}
+	domProg := func(front int, order []int) string {
+		var sb strings.Builder
+		sb.WriteString("global {}\nrouting {\n")
+		for i := 0; i < front; i++ {
+			fmt.Fprintf(&sb, "  dport(%d) -> %s\n", 3000+i, c01Outs[5+i%2])
+		}
+		for _, i := range order {
+			sb.WriteString(domRules[i])
+		}
+		sb.WriteString("  fallback: " + c01Outs[7] + "\n}\n")
+		return sb.String()
+	}
+	domNote := []string{}
+	domReload := func(front int, order []int) bool {
+		bb, res := c02Build(log, domProg(front, order), name2id)
+		if bb == nil {
+			domNote = append(domNote, "build: "+res)
+			return false
+		}
+		m, res := d.reload(bb, &dcur)
+		domNote = append(domNote, fmt.Sprintf("front=%d order=%v: %s", front, order, res))
+		if m != nil {
+			stats.Inc("dom.generations")
+		}
+		return m != nil
+	}
+	ip := netip.MustParseAddr
+	if domReload(0, []int{0, 1, 2, 3}) {
+		d.answer("a.example.test", ip("93.184.216.1"), ip("2001:db8::1"))
+		d.answer("www.b.example.test", ip("93.184.216.2"))
+		d.answer("xcccx.example.test", ip("93.184.216.3"), ip("93.184.216.33"))
+		d.answer("nomatch.invalid", ip("93.184.216.4"))
+		d.domPackets()
+		// re-numbered: 40 rules in front (the domain sets move into the second bitmap word), first rule gone
+		if domReload(40, []int{1, 2, 3}) {
+			d.domPackets()
+			d.answer("other.test", ip("93.184.216.5"))
+			d.domPackets()
+			// the running generation restores its own datapath (what the reload handler does after a failed staged reload)
+			d.emitTyped(dcur.compiled, dcur.tries)
+			d.st.Emit(fmt.Sprintf("reserve %d %d", len(dcur.tries), globalNextLpmIndex.Load()), "ok")
+			if err := d.plane.RebuildReloadDatapath(); err != nil {
+				d.goViol = append(d.goViol, "RebuildReloadDatapath: "+err.Error())
+			} else {
+				stats.Inc("dom.self_rebuild")
+				d.sync()
+				d.st.Emit("instcheck", "ok")
+				d.checkDomainTable("after RebuildReloadDatapath of the running generation")
+				d.domPackets()
+			}
+			// order changed, nothing in front
+			if domReload(3, []int{3, 0, 2, 1}) {
+				d.domPackets()
+			}
+		}
+	}
+	allViol = append(allViol, d.goViol...)
+	d.close()
+	_ = os.WriteFile(filepath.Join(VOutDir(), "c02dom.note"), []byte(strings.Join(domNote, "\n")+"\n"), 0o644)
 
 	// ---------------------------------------------------------------- kernel error paths (hand-written maps, kernel vs model only)
 	e := VOpenStream("c02err")
